@@ -64,7 +64,7 @@ func runC05(c *ctx, r *Report) error {
 			id       string
 			needs    []int
 			outputs  []string
-			matrix   string // none | lit | exprRow | exprInclude | exprIncludeElem | exprMatrix
+			matrix   string // none | lit | exprRow | exprInclude | exprIncludeElem | exprMatrix | exprMatrixConst
 			rowKeys  []string
 			incKeys  []string
 			stepIDs  []string // "" = no id
@@ -83,7 +83,12 @@ func runC05(c *ctx, r *Report) error {
 				}
 			}
 			jobs[j].matrix = []string{"none", "none", "lit", "lit", "exprRow", "exprInclude", "exprIncludeElem", "exprMatrix"}[rng.Intn(8)]
-			if jobs[j].matrix != "none" && jobs[j].matrix != "exprMatrix" {
+			if s%25 == 7 && j == 0 {
+				// the whole matrix given by an expression whose type is known statically (a JSON literal): by the letter of the
+				// property references into it are not reported; the rule types the literal and reports (recorded finding)
+				jobs[j].matrix = "exprMatrixConst"
+			}
+			if jobs[j].matrix != "none" && jobs[j].matrix != "exprMatrix" && jobs[j].matrix != "exprMatrixConst" {
 				jobs[j].rowKeys = []string{matrixKeys[rng.Intn(2)]}
 				if jobs[j].matrix == "lit" && rng.Intn(2) == 0 {
 					jobs[j].incKeys = []string{"extra"}
@@ -219,6 +224,9 @@ func runC05(c *ctx, r *Report) error {
 			case "exprMatrix":
 				b.add("    strategy:")
 				b.add("      matrix: ${{ fromJSON(vars.M) }}")
+			case "exprMatrixConst":
+				b.add("    strategy:")
+				b.add("      matrix: ${{ fromJSON('{\"zz\":[1]}') }}")
 			}
 			// job outputs (declared) + probes at job level: all step ids are visible
 			allIDs := map[string]bool{}
@@ -279,7 +287,7 @@ func runC05(c *ctx, r *Report) error {
 				// matrix
 				for _, mk := range matrixKeys {
 					def := false
-					open := ji.matrix == "exprMatrix" || ji.matrix == "exprInclude" || ji.matrix == "exprIncludeElem"
+					open := ji.matrix == "exprMatrix" || ji.matrix == "exprInclude" || ji.matrix == "exprIncludeElem" || ji.matrix == "exprMatrixConst"
 					for _, k := range append(append([]string{}, ji.rowKeys...), ji.incKeys...) {
 						if k == mk {
 							def = true
@@ -289,7 +297,11 @@ func runC05(c *ctx, r *Report) error {
 					if ji.matrix == "none" {
 						want = true // no matrix: `matrix` is the empty strict object
 					}
-					b.probeStep("      ", "matrix."+randCase(rng, mk), mk, want, "matrix.<key> ("+ji.matrix+")")
+					what := "matrix.<key> (" + ji.matrix + ")"
+					if ji.matrix == "exprMatrixConst" {
+						what = "matrix-static-expression"
+					}
+					b.probeStep("      ", "matrix."+randCase(rng, mk), mk, want, what)
 				}
 				// inputs
 				for _, n := range append(append([]string{}, inputNames...), "nobody") {
